@@ -196,6 +196,9 @@ def stepLine (s : S) (req resp : List String) : S × List String :=
   | ["dw", k] => schedCall s (.waitWorker (k == "acquired")) (if k == "acquired" then "ok" else "err ctx")
   | ["q", "markdisp", f, hf, _id] =>
     schedCall { s with hadFault := s.hadFault || f != "-" || hf != "-" } (.markDispatched (decFault f) (decHf hf)) obs
+  -- D21's trigger: the core repository below the wrapper applied `MarkAsDispatched` and reported an error; the
+  -- wrapper's timer hook was not called (always a fault)
+  | ["q", "markdispcore", _id] => schedCall { s with hadFault := true } .markDispatchedCore obs
   | ["q", "getbyid", f, _id] => schedCall { s with hadFault := s.hadFault || f != "-" } (.getById (decFault f)) obs
   | "work" :: id :: now :: rest =>
     match decStr id, decTime now, decTask rest with
